@@ -56,12 +56,34 @@ def build_session(rng, tmp, nops, metrics):
     for _ in range(nops):
         c = rng.random()
         m = rng.choice(metrics)
-        if c < 0.45:
+        if c < 0.12:
+            # the caller refills one of its own buffers in place (same object, new values) - a legitimate caller
+            # action, logged as such; later evaluations must see the new values
+            a, b = rng.choice(vecs), rng.choice(vecs)
+            if a != b and s.pool[a].shape == s.pool[b].shape and s.pool[a].dtype == s.pool[b].dtype:
+                other = rng.choice(vecs)
+                if s.pool[other].shape == s.pool[a].shape:
+                    s.dist(m, a, other)           # evaluation before the refill (same object as first / second argument)
+                    s.dist(m, other, a)
+                s.pool[a][:] = s.pool[b]
+                s.log(op="learn", name="caller_refills_own_buffer")
+                if s.pool[other].shape == s.pool[a].shape:
+                    s.dist(m, a, other)           # same object, new values
+                    s.dist(m, other, a)
+                    s.dist(m, b, other)           # the same values through another object
+                    s.dist(m, other, b)
+        elif c < 0.45:
             a, b = rng.choice(vecs), rng.choice(vecs)
             if s.pool[a].shape == s.pool[b].shape:
                 s.dist(m, a, b)
                 if rng.random() < 0.5:
                     s.dist(m, a, b)
+                if rng.random() < 0.5:
+                    # the same values through fresh objects
+                    ia = s.pool[a]
+                    s.pool[a] = ia.copy()
+                    s.dist(m, a, b)
+                    s.pool[a] = ia
         elif c < 0.7:
             ia = rng.choice(mats)
             A = s.pool[ia]
